@@ -25,6 +25,7 @@ RULE = (
     "programs (real FFTs, reductions, cumsum, indexing, dot) over vectors of 2**16..2**17 entries - sizes at which an implementation "
     "may switch strategy (kept buffers, chunking): inputs unchanged, <grad, v> against central differences of raw NumPy (1e-5 relative), "
     "a repeated step reproduces its first result bitwise whatever ran in between."
+    " container_reads: tuple / list / dict arguments whose entries are looked up several times in an array-valued sum; the caller's cotangent array through one VJP function four times (closed form per call, cotangent and arguments unchanged)."
 )
 
 
@@ -327,6 +328,12 @@ def template_body(tdef, c):
     before = digest([g1, g2] + [a for a in inst.xs if isinstance(a, onp.ndarray)])
     try:
         vjp, y = autograd.make_vjp(f)(x)
+        if inst.vseed % 2:
+            # half of the cases: the function's FIRST call gets an all-zero cotangent (rules that look at the values of their cotangent
+            # must decide per call); the fresh function below never sees it
+            g0 = onp.zeros_like(g1)
+            g0.flags.writeable = False
+            vjp(g0)
         r1 = vjp(g1)
         r1_digest = digest([r1])
         r2 = vjp(g2)
@@ -549,6 +556,68 @@ def large_arrays_body(c):
     return ok(nontrivial=len(set(steps)) >= 2 and len(steps) > len(set(steps)), key=json.dumps(sample), labels=["large"], sample=sample)
 
 
+def container_reads_body(c):
+    """A tuple / list / dict ARGUMENT whose entries are looked up several times (`p[0] + p[0]`, `3 p["w"] + p["w"] + p["v"]`): the array-valued sum of
+    2-5 terms (an entry itself, a scaled entry, sin of an entry) in a drawn order.  The caller's cotangent array goes through make_vjp's function
+    twice (then another one, then the first again): it is never changed, every call gives g * (sum of the local derivatives) per entry, the
+    arguments are unchanged; the scalar version sum(sin(y)) through grad gives cos(y) * (the same sums)."""
+    import autograd
+    import autograd.numpy as anp
+
+    vseed = c.seed()
+    kind = c.choice(["tuple", "list", "dict"])
+    ne = c.int(2, 3)
+    n = c.int(1, 4)
+    arrs, _ = values.generic(vseed, [(n,)] * ne + [(n,), (n,)], -1.3, 1.3)
+    leaves, g1, g2 = arrs[:ne], arrs[ne], arrs[ne + 1]
+    keys = ["w", "v", "a"][:ne]
+    terms = [(c.choice(["plain", "plain", "scaled", "sin"]), c.int(0, ne - 1), c.choice([3.0, -0.5, 2.0])) for _ in range(c.int(2, 5))]
+    sample = {"kind": kind, "ne": ne, "n": n, "terms": terms, "vseed": vseed}
+    c.features.update(kind=kind, n_terms=len(terms), first=terms[0][0], repeated=len({t[1] for t in terms}) < len(terms))
+    bucket = lambda k: f"C10|container_reads|{kind}|{k}"
+    ent = (lambda p_, i: p_[keys[i]]) if kind == "dict" else (lambda p_, i: p_[i])
+    mk = lambda: dict(zip(keys, [a.copy() for a in leaves])) if kind == "dict" else ((list if kind == "list" else tuple)(a.copy() for a in leaves))
+
+    def y(p_, ns=anp):
+        tot = None
+        for tk, i, k_ in terms:
+            t = ent(p_, i) if tk == "plain" else (k_ * ent(p_, i) if tk == "scaled" else ns.sin(ent(p_, i)))
+            tot = t if tot is None else tot + t
+        return tot
+
+    coef = [onp.zeros(n) for _ in range(ne)]
+    for tk, i, k_ in terms:
+        coef[i] = coef[i] + (1.0 if tk == "plain" else (k_ if tk == "scaled" else onp.cos(leaves[i])))
+    p0 = mk()
+    snap = [a.copy() for a in leaves]
+    try:
+        vjp, y0 = autograd.make_vjp(y)(p0)
+        outs = []
+        for gk in (g1, g1, g2, g1):
+            keep = gk.copy()
+            r = vjp(gk)
+            outs.append(([onp.array(ent(r, i)) for i in range(ne)], keep))
+            if not onp.array_equal(gk, keep):
+                return fail("foreign_write", f"the cotangent array passed to the VJP function was changed: {keep.tolist()} -> {gk.tolist()}", bucket("cotangent"), sample=sample)
+        gs = autograd.grad(lambda p_: anp.sum(anp.sin(y(p_))))(mk())
+    except Exception as e:
+        if not from_autograd(e):
+            raise
+        return fail("unexpected_exception", describe_exc(e), bucket("exception"), sample=sample)
+    if not all(onp.array_equal(ent(p0, i), snap[i]) for i in range(ne)):
+        return fail("foreign_write", "an entry of the container argument was changed", bucket("argument"), sample=sample)
+    for call, (r, keep) in enumerate(outs):
+        for i in range(ne):
+            if r[i].shape != (n,) or not onp.allclose(r[i], keep * coef[i], rtol=1e-13, atol=1e-13):
+                return fail("not_reusable", f"call {call} of the VJP function: entry {keys[i]} gets {r[i].tolist()}, expected {(keep * coef[i]).tolist()}", bucket("value"), sample=sample)
+    cy = onp.cos(onp.asarray(y(mk(), onp)))
+    for i in range(ne):
+        got = onp.asarray(ent(gs, i))
+        if got.shape != (n,) or not onp.allclose(got, cy * coef[i], rtol=1e-12, atol=1e-13):
+            return fail("wrong_value", f"grad of sum(sin(y)): entry {keys[i]} gets {got.tolist()}, expected {(cy * coef[i]).tolist()}", bucket("grad"), sample=sample)
+    return ok(nontrivial=len({t[1] for t in terms}) < len(terms), key=json.dumps([kind, ne, n, terms]), labels=["container_reads", "kind=" + kind, "first=" + terms[0][0]], sample=sample)
+
+
 from functools import partial  # noqa: E402
 
 def _tests():
@@ -557,7 +626,8 @@ def _tests():
     out = [Test("histories", partial(body, 15), quick=2000, thorough=0, shard_size=130),
            Test("histories_long", partial(body, 30), quick=0, thorough=6000, shard_size=100),
            Test("special_points", special_points_body, quick=1500, thorough=12000, shard_size=150),
-           Test("large_arrays", large_arrays_body, quick=160, thorough=1600, shard_size=10)]
+           Test("large_arrays", large_arrays_body, quick=160, thorough=1600, shard_size=10),
+           Test("container_reads", container_reads_body, quick=1200, thorough=8000, shard_size=200)]
     for name, t in sorted(TEMPLATES.items()):
         out.append(Test("reuse:" + name, partial(template_body, t), quick=20 * t.weight, thorough=200 * t.weight, shard_size=100))
     return out
